@@ -6,6 +6,8 @@ SPEC = {
         {"name": "TestHTTPGun", "quick": 160, "thorough": 12000, "shards_quick": 8, "shards_thorough": 16, "timeout": 3000},
         {"name": "TestScenarioGun", "quick": 240, "thorough": 16000, "shards_quick": 8, "shards_thorough": 16, "timeout": 3000},
         {"name": "TestGRPCGuns", "quick": 64, "thorough": 4000, "shards_quick": 8, "shards_thorough": 16, "timeout": 3000},
+        {"name": "TestHTTP2Gun", "quick": 96, "thorough": 6000, "shards_quick": 8, "shards_thorough": 16, "timeout": 3000},
+        {"name": "TestHTTP2ScenarioGun", "quick": 96, "thorough": 6000, "shards_quick": 8, "shards_thorough": 16, "timeout": 3000},
     ],
     "rule": ("rapid-generated response histories of in-process targets: any status, empty and 3 MB bodies, malformed status line / header "
              "line / chunking, binary garbage, early close, TCP reset, stall past the response timeout, body shorter than Content-Length, "
